@@ -45,7 +45,11 @@ def solve_castle_wall(height, width, arrow, inside):
                 )
     for y in range(height):
         for x in range(width):
-            if inside[y][x] is True:
+            if height == 1 or width == 1:
+                # a board of one row / column has no room for a loop: every cell is outside
+                if inside[y][x] is True:
+                    solver.ensure(False)
+            elif inside[y][x] is True:
                 solver.ensure(is_inside[max(0, y - 1), max(0, x - 1)])
             elif inside[y][x] is False:
                 solver.ensure(~is_inside[max(0, y - 1), max(0, x - 1)])
